@@ -132,14 +132,18 @@ func (se *subscriptionEntry) prepareResponse(resp *requests.Response) *requests.
 // Close asks Listen to stop. It never blocks and is safe to call any number of times,
 // before, while and after Listen runs.
 func (se *subscriptionEntry) Close() {
+	common.VerifPoint(se.vid, "se.close.enter")
 	se.closeOnce.Do(func() {
 		close(se.closeCh)
 	})
+	common.VerifPoint(se.vid, "se.close.closed")
 }
 
 func (se *subscriptionEntry) Listen(conn net.Conn) {
 	// tell the queryer that nobody listens any more
+	defer common.VerifPoint(se.vid, "se.listen.done")
 	defer close(se.queryerCloseCh)
+	defer common.VerifPoint(se.vid, "se.listen.defer.qclose")
 
 	for {
 		common.VerifPoint(se.vid, "se.listen.select")
